@@ -21,12 +21,44 @@ fn detect_skin_format<R: Read + Seek>(reader: &mut R) -> Result<bool> {
     // Read the second u32 field
     let second_field = reader.read_u32_le()?;
 
+    // If > 4, it cannot be a version field: it is the indices count of the old format
+    if second_field > 4 {
+        reader.seek(SeekFrom::Start(start_pos))?;
+        return Ok(false);
+    }
+
+    // A value <= 4 is either the version field of the new format or the indices count of a small
+    // old-format file. Accept the new-format reading only if its five array references are
+    // consistent with the file: empty, or behind the 60-byte header and inside the file.
+    const NEW_HEADER_SIZE: u64 = 60;
+    const ELEMENT_SIZES: [u64; 5] = [2, 2, 4, 48, 24]; // indices, triangles, bone quads, submeshes, batches
+    const OLD_HEADER_SIZE: u64 = 48;
+    let file_len = reader.seek(SeekFrom::End(0))? - start_pos;
+    if file_len < OLD_HEADER_SIZE {
+        // Too short for either header (a bare prefix): nothing but the field value to go by
+        reader.seek(SeekFrom::Start(start_pos))?;
+        return Ok(true);
+    }
+    let mut plausible = file_len >= NEW_HEADER_SIZE;
+    if plausible {
+        // magic, version, name (count, offset), vertex count precede the array references
+        reader.seek(SeekFrom::Start(start_pos + 20))?;
+        for element_size in ELEMENT_SIZES {
+            let count = reader.read_u32_le()? as u64;
+            let offset = reader.read_u32_le()? as u64;
+            let empty = count == 0 && offset == 0;
+            let inside = offset >= NEW_HEADER_SIZE && offset + count * element_size <= file_len;
+            if !(empty || inside) {
+                plausible = false;
+                break;
+            }
+        }
+    }
+
     // Reset position
     reader.seek(SeekFrom::Start(start_pos))?;
 
-    // If <= 4, it's likely a version field (new format)
-    // If > 4, it's likely an indices count (old format)
-    Ok(second_field <= 4)
+    Ok(plausible)
 }
 
 /// Parse a SKIN file with automatic format detection
